@@ -127,6 +127,7 @@ func inlineRound(p *Prog, baseline map[string]bool) (map[string][]byte, []string
 			}
 			var edits []inlineEdit
 			edits = append(edits, bundle[file]...)
+			needImports := map[string]string{}
 			for _, d := range file.Decls {
 				fd, ok := d.(*ast.FuncDecl)
 				if !ok || fd.Body == nil {
@@ -138,7 +139,7 @@ func inlineRound(p *Prog, baseline map[string]bool) (map[string][]byte, []string
 						caller = p.byObj[fo]
 					}
 				}
-				ctx := &inlCtx{p: p, pk: pk, file: file, tf: tf, src: src, caller: fd, callerKey: funcKey(pk, fd), baseline: baseline}
+				ctx := &inlCtx{p: p, pk: pk, file: file, tf: tf, src: src, caller: fd, callerKey: funcKey(pk, fd), baseline: baseline, needImports: needImports}
 				if caller != nil {
 					ctx.callerKey = caller.Key
 				}
@@ -153,6 +154,23 @@ func inlineRound(p *Prog, baseline map[string]bool) (map[string][]byte, []string
 			}
 			if len(edits) == 0 {
 				continue
+			}
+			if len(needImports) > 0 {
+				// an inlined body came from a file with imports this file does not have: a second import declaration
+				// right after the package clause, each import kept alive by a blank declaration
+				var names []string
+				for n := range needImports {
+					names = append(names, n)
+				}
+				sort.Strings(names)
+				var sb, gb strings.Builder
+				for _, n := range names {
+					parts := strings.SplitN(needImports[n], "\t", 2)
+					sb.WriteString("\nimport " + n + " \"" + parts[0] + "\"\n")
+					gb.WriteString("\n" + parts[1] + "\n")
+				}
+				at := tf.Offset(file.Name.End())
+				edits = append(edits, inlineEdit{start: at, end: at, text: sb.String()}, inlineEdit{start: len(src), end: len(src), text: gb.String()})
 			}
 			// apply non-overlapping edits from the end; an edit nested inside another one is dropped (next round)
 			sort.Slice(edits, func(i, j int) bool { return edits[i].start < edits[j].start })
@@ -199,6 +217,7 @@ type inlCtx struct {
 	counter        int
 	pendingClosure types.Object
 	exprInlined    map[*ast.CallExpr]bool // calls replaced by the callee's single returned expression
+	needImports    map[string]string      // shared per file: package name -> "path\tguard declaration" of imports an inlined body needs
 }
 
 func (c *inlCtx) text(n ast.Node) string {
@@ -1016,7 +1035,21 @@ func (c *inlCtx) tryCall(st ast.Stmt, call *ast.CallExpr, kind callKind, as *ast
 	// ---- free names mean the same at the call site
 	callScope := c.pk.Types.Scope().Innermost(call.Pos())
 	okNames := true
+	wantImports := map[string]string{}
+	guards := map[string]string{}
 	ast.Inspect(body, func(n ast.Node) bool {
+		if sel, isSel := n.(*ast.SelectorExpr); isSel {
+			if x, isX := sel.X.(*ast.Ident); isX {
+				if _, isPN := info.Uses[x].(*types.PkgName); isPN && guards[x.Name] == "" {
+					switch info.Uses[sel.Sel].(type) {
+					case *types.TypeName:
+						guards[x.Name] = "var _ *" + x.Name + "." + sel.Sel.Name
+					case *types.Func, *types.Var, *types.Const:
+						guards[x.Name] = "var _ = " + x.Name + "." + sel.Sel.Name
+					}
+				}
+			}
+		}
 		id, isId := n.(*ast.Ident)
 		if !isId {
 			return true
@@ -1029,7 +1062,10 @@ func (c *inlCtx) tryCall(st ast.Stmt, call *ast.CallExpr, kind callKind, as *ast
 		case *types.PkgName:
 			_, at := callScope.LookupParent(id.Name, call.Pos())
 			pn, isPN := at.(*types.PkgName)
-			if !isPN || pn.Imported() != t.Imported() {
+			if at == nil && c.needImports != nil {
+				// the callee lives in a file that imports a package this file does not: import it here too
+				wantImports[id.Name] = t.Imported().Path()
+			} else if !isPN || pn.Imported() != t.Imported() {
 				okNames = false
 			}
 		default:
@@ -1048,9 +1084,17 @@ func (c *inlCtx) tryCall(st ast.Stmt, call *ast.CallExpr, kind callKind, as *ast
 		}
 		return true
 	})
+	for n := range wantImports {
+		if guards[n] == "" {
+			okNames = false
+		}
+	}
 	if !okNames {
 		c.skip(call, name, "a package-level name used by the callee is shadowed or not imported at the call site")
 		return
+	}
+	for n, path := range wantImports {
+		c.needImports[n] = path + "\t" + guards[n]
 	}
 	_ = calleeFile
 	// ---- parameters
@@ -2017,6 +2061,44 @@ func (p *Prog) applyRenames(baseline map[string]bool) []string {
 		if f == nil {
 			continue
 		}
+		delete(p.Funcs, match[0].key)
+		f.Key = m.key
+		p.Funcs[m.key] = f
+		out = append(out, m.key+" -> "+match[0].key)
+	}
+	// second pass - a method moved onto another type of the same package (or made a plain function with the same
+	// parameters): the only new function of the package with that signature stands for the only missing one. A wrong
+	// guess cannot hide anything: the rules then judge the candidate by what it does.
+	pkgOf := func(key string) string {
+		if i := strings.Index(key, ".("); i >= 0 {
+			return key[:i]
+		}
+		if i := strings.LastIndex(key, "."); i >= 0 {
+			return key[:i]
+		}
+		return key
+	}
+	for _, m := range missing {
+		if _, has := p.Funcs[m.key]; has {
+			continue
+		}
+		var match []cand
+		for _, a := range added {
+			if !taken[a.key] && a.sig == m.sig && pkgOf(a.key) == pkgOf(m.key) && p.Funcs[a.key] != nil {
+				match = append(match, a)
+			}
+		}
+		rivals := 0
+		for _, m2 := range missing {
+			if _, has := p.Funcs[m2.key]; !has && m2.sig == m.sig && pkgOf(m2.key) == pkgOf(m.key) {
+				rivals++
+			}
+		}
+		if len(match) != 1 || rivals != 1 {
+			continue
+		}
+		taken[match[0].key] = true
+		f := p.Funcs[match[0].key]
 		delete(p.Funcs, match[0].key)
 		f.Key = m.key
 		p.Funcs[m.key] = f
